@@ -146,3 +146,9 @@ class ConnObserver:
 
     def on_message(self, event):
         self.messages.append((event.connection, event.message))
+
+
+# deterministic set order for the futures the library puts into asyncio.wait()
+from aioslsk.network.network import ExpectedResponse, PeerFuture  # noqa: E402
+from .loop import deterministic_future_hashes  # noqa: E402
+deterministic_future_hashes(ExpectedResponse, PeerFuture)
